@@ -622,11 +622,12 @@ def render_service(d, as_int):
         q = {'request-id': r['id'], 'source': 'trx A', 'destination': 'trx B', 'src-tp-id': 'trx A', 'dst-tp-id': 'trx B',
              'bidirectional': False, 'path-constraints': {'te-bandwidth': te}}
         if r['include']:
-            # the legacy key order puts the index last: the converter must move the list key first
+            # the list is keyed by `index`: the order of the hops is the order of the indices, not the order in the file.
+            # The objects are written last hop first, and the index key last (the converter must move the key first).
             q['explicit-route-objects'] = {'route-object-include-exclude': [
                 {'explicit-route-usage': 'route-include-ero',
                  'num-unnum-hop': {'node-id': h['node'], 'link-tp-id': 'link-tp-id is not used', 'hop-type': h['hop']},
-                 'index': i} for i, h in enumerate(r['include'])]}
+                 'index': i} for i, h in reversed(list(enumerate(r['include'])))]}
         reqs.append(q)
     out = {'path-request': reqs}
     if d['sync']:
